@@ -10,6 +10,7 @@ Float ranges and `multipleOf` are decided by the exact-arithmetic correspondence
 (see DESIGN.md), hence the level `partial`.
 -/
 import LlgVerif.Proofs.IntRangeMain
+import LlgVerif.Proofs.FloatRange
 namespace LlgVerif
 open Rx
 
@@ -367,5 +368,41 @@ example : ∃ p, intBoth (-12) 345 = .ok p := intBoth_total _ _ (by decide) (by 
 example : decI (-12) = [45, 49, 50] := by
   simp [decI, dec, digitB]
 example : InBounds (some (-12)) (some 345) 7 := by simp [InBounds]
+
+/-! ### fraction digits of decimal bounds (`lexi_x_to_9`, `lexi_0_to_x`, `lexi_range`)
+
+`fracLE d x` / `fracLT d x` is the order of the fractions `0.d`, `0.x` (theorems
+`fracLE_iff_scaled`, `fracLT_iff_scaled`: it is the numeric order of `0.d × 10^n`).  The three
+helpers, as repaired, denote exactly the digit strings on the right side of the bound, including
+shorter spellings and trailing zeros. -/
+
+/-- **C08 (lower fraction bound).** `lexi_x_to_9(x, incl)` accepts exactly the digit strings `d` with
+`0.x ≤ 0.d` (`<` when exclusive), for every trimmed digit string `x`. -/
+theorem c08_lexi_x_to_9 (x : List Nat) (incl : Bool) (hx : AllDig x) (hn : NTZ x) :
+    DigLang (lexiXTo9 x incl).rx (fun d => if incl then fracLE x d else fracLT x d) :=
+  lexiXTo9_lang x incl hx hn
+
+/-- **C08 (upper fraction bound).** `lexi_0_to_x(x, incl)` accepts exactly the non-empty digit strings
+`d` with `0.d ≤ 0.x` (`<` when exclusive), and does not fail on a trimmed `x` (non-empty when exclusive). -/
+theorem c08_lexi_0_to_x (x : List Nat) (incl : Bool) (hx : AllDig x) (hn : NTZ x)
+    (hne : incl = true ∨ x ≠ []) :
+    ∃ p, lexi0ToX x incl = .ok p ∧
+      DigLang p.rx (fun d => d ≠ [] ∧ (if incl then fracLE d x else fracLT d x)) := by
+  obtain ⟨p, hp⟩ := lexi0ToX_total x incl hn hne
+  exact ⟨p, hp, lexi0ToX_lang x incl p hp hx hn⟩
+
+/-- **C08 (both fraction bounds, same integer part).** `lexi_range(ld, rd, li, ri)` on different, equally
+long digit strings accepts exactly the non-empty `d` with `0.ld ≤ 0.d ≤ 0.rd` (strict where a flag is off). -/
+theorem c08_lexi_range (ld rd : List Nat) (li ri : Bool) (p : PR) (h : lexiRange ld rd li ri = .ok p)
+    (hne : ld ≠ rd) (hl : AllDig ld) (hr : AllDig rd) :
+    DigLang p.rx (fun d => d ≠ [] ∧ LowerB li ld d ∧ UpperB ri d rd) :=
+  lexiRange_lang ld rd li ri p h hne hl hr
+
+/-! non-vacuity: `maximum 0.15` (digits [1,5], inclusive): `0.1`, `0.15`, `0.150`, `0.09` are inside, `0.2` is not -/
+example : fracLE [1] [1, 5] ∧ fracLE [1, 5, 0] [1, 5] ∧ fracLE [0, 9] [1, 5] ∧ ¬ fracLE [2] [1, 5] := by
+  simp [fracLE]
+example : NTZ [1, 5] ∧ AllDig [1, 5] := by
+  refine ⟨by simp [NTZ], ?_⟩
+  intro a ha; simp at ha; omega
 
 end LlgVerif
